@@ -232,6 +232,18 @@ def check(run):
                 e = e.args[0]
             if isinstance(e, ast.Attribute) and norm(e.value) == norm(cmp_.generators[0].target) and norm(cmp_.generators[0].iter) == 'objs':
                 got[e.attr] = True
+        if not (got.get('g') and got.get('p')):
+            # other shapes (explicit loops, temporaries): decided by may-dependence of the two constructor arguments
+            from ..names import local_deps, expr_deps
+            dps = local_deps(ps_)
+            got = {}
+            for st, _ in walk(ps_.node):
+                if isinstance(st, ast.Return) and isinstance(st.value, ast.Call) and norm(st.value.func) == 'PauliList' and len(st.value.args) >= 2:
+                    dg, dp = expr_deps(ps_, st.value.args[0], dps), expr_deps(ps_, st.value.args[1], dps)
+                    if ('attr', 'g') in dg and ('call', 'pauli') in dg:
+                        got['g'] = True
+                    if ('attr', 'p') in dp and ('call', 'pauli') in dp:
+                        got['p'] = True
         run.check(got.get('g') and got.get('p'), 'R12.defaults', ps_, 'gs from obj.g, ps from obj.p', 'the list collects string and phase of every parsed operator (found %s)' % sorted(got))
         # constructor defaults: phase 0 when omitted
         for q, fld, zero in (('Pauli.__init__', 'p', '0'), ('PauliList.__init__', 'ps', 'zeros')):
